@@ -5714,6 +5714,11 @@ oid_parsing_done:
             break;
         case ATTRIB_DOMAIN_COMPONENT:
             domainComponent = psMalloc(pool, sizeof(x509DomainComponent_t));
+            if (domainComponent == NULL)
+            {
+                psFree(stringOut, pool);
+                return PS_MEM_FAIL;
+            }
             domainComponent->name = stringOut;
             domainComponent->type = (short) stringType;
             domainComponent->len = llen;
